@@ -224,7 +224,7 @@ func cfgDestOpts(r *mon.Rng) string {
 }
 
 func adminCmd(r *mon.Rng, st *state) string {
-	switch r.Intn(14) {
+	switch r.PickInt([]int{0, 1, 2, 2, 3, 3, 3, 4, 5, 6, 7, 8, 9, 10, 11, 11, 11, 12, 13}) {
 	case 0:
 		return r.Pick(docCmds)
 	case 1: // mutate a documented command
@@ -294,16 +294,31 @@ func adminCmd(r *mon.Rng, st *state) string {
 		return strings.Join(c, r.Pick([]string{" ", "", "  "}))
 	case 10:
 		return string(r.Bytes(r.Range(0, 100)))
-	case 11: // grafanaNet / kafkaMdm / pubsub with options
+	case 11: // grafanaNet / kafkaMdm / pubsub: mostly well-formed, a few boundary options each
 		k := fmt.Sprintf("g%d", st.n)
 		st.n++
+		st.routes = append(st.routes, k)
+		opt := func(name string, vals []string) string {
+			if r.Chance(2, 5) {
+				return " " + name + "=" + r.Pick(vals)
+			}
+			return ""
+		}
+		small := []string{"0", "1", "2", "10", "1000"}
 		switch r.Intn(3) {
 		case 0:
-			return fmt.Sprintf("addRoute grafanaNet %s  http://127.0.0.1:%d/metrics apikey %s %s concurrency=%s bufSize=%s flushMaxNum=%s flushMaxWait=%s timeout=%s orgId=%s", k, st.deadPort, st.schemas, st.aggconf, r.Pick(smallNums), r.Pick(smallNums), r.Pick(nums), r.Pick(nums), r.Pick(nums), r.Pick(nums))
+			return fmt.Sprintf("addRoute grafanaNet %s  http://127.0.0.1:%d/metrics apikey %s %s", k, st.deadPort, st.schemas, st.aggconf) +
+				opt("concurrency", small) + opt("bufSize", small) + opt("flushMaxNum", small) + opt("flushMaxWait", small) + opt("timeout", small) +
+				opt("orgId", []string{"1", "2", "0"}) + opt("blocking", []string{"false", "false", "false", "true"}) + opt("errBackoffMin", small) + opt("errBackoffFactor", []string{"1.5", "0", "1", "x"})
 		case 1:
-			return fmt.Sprintf("addRoute kafkaMdm %s  127.0.0.1:%d topic %s %s %s %s tlsEnabled=%s tlsClientCert=/nonexistent tlsClientKey=/nonexistent saslEnabled=%s saslMechanism=%s", k, st.deadPort, r.Pick([]string{"none", "snappy", "gzip", "x"}), st.schemas, r.Pick([]string{"byOrg", "bySeries", "x"}), r.Pick(nums), r.Pick([]string{"true", "false"}), r.Pick([]string{"true", "false"}), r.Pick([]string{"PLAIN", "SCRAM-SHA-256", "bogus"}))
+			codec := r.Pick([]string{"none", "snappy", "gzip", "none", "x"})
+			part := r.Pick([]string{"byOrg", "bySeries", "bySeriesWithTags", "x"})
+			return fmt.Sprintf("addRoute kafkaMdm %s  127.0.0.1:%d topic %s %s %s %s", k, st.deadPort, codec, st.schemas, part, r.Pick([]string{"1", "1", "2", "0", "x"})) +
+				opt("bufSize", small) + opt("flushMaxNum", small) + opt("flushMaxWait", small) + opt("timeout", small) + opt("blocking", []string{"false", "false", "false", "true"}) +
+				opt("tlsEnabled", []string{"true", "false"}) + opt("tlsClientCert", []string{"/nonexistent"}) + opt("tlsClientKey", []string{"/nonexistent"}) +
+				opt("saslEnabled", []string{"true", "false"}) + opt("saslMechanism", []string{"PLAIN", "SCRAM-SHA-256", "bogus"})
 		default:
-			return fmt.Sprintf("addRoute pubsub %s  proj topic codec=%s format=%s bufSize=%s", k, r.Pick([]string{"gzip", "none", "x"}), r.Pick([]string{"plain", "pickle", "x"}), r.Pick(smallNums))
+			return fmt.Sprintf("addRoute pubsub %s  proj topic", k) + opt("codec", []string{"gzip", "none", "x"}) + opt("format", []string{"plain", "pickle", "x"}) + opt("bufSize", small) + opt("flushMaxWait", small)
 		}
 	case 12:
 		return strings.Repeat(r.Pick([]string{"addRoute ", "a", " ", "regex="}), r.Range(1, 300)) // longer than the 1024-byte read buffer
@@ -763,11 +778,36 @@ func runChild(res *mon.Result, bin string, idx int, base string) {
 			time.Sleep(2 * time.Second)
 			kill()
 			log := readLog()
-			if len(log) > 6000 {
-				log = log[len(log)-6000:]
+			if w := os.Getenv("VERIF_WORK"); w != "" {
+				os.WriteFile(filepath.Join(w, fmt.Sprintf("unresponsive-child%d.log", idx)), []byte(log), 0644)
 			}
-			res.Violate("relay-unresponsive", "the relay process exists but its admin port no longer answers `view`", witness(map[string]interface{}{"goroutine_dump_tail": log}))
+			// keep the goroutines that are inside repo code but not plain listeners
+			var keep []string
+			for _, g := range strings.Split(log, "\n\n") {
+				if strings.Contains(g, "carbon-relay-ng/aggregator.") || strings.Contains(g, "carbon-relay-ng/table.") || strings.Contains(g, "carbon-relay-ng/route.") || strings.Contains(g, "carbon-relay-ng/destination.") {
+					if len(g) > 1500 {
+						g = g[:1500]
+					}
+					keep = append(keep, g)
+				}
+			}
+			log = strings.Join(keep, "\n\n")
+			if len(log) > 20000 {
+				log = log[:20000]
+			}
+			// alive but not answering is not a crash: a route in blocking mode towards a dead endpoint stalls the
+			// table by design (docs/config.md: "blocking ... puts backpressure on the table"), and `view` waits for
+			// the aggregators behind it. Recorded, never a C14 verdict.
+			_ = log
+			res.Inconclusive(fmt.Sprintf("child %d: relay alive but `view` no longer answers after %q (back-pressure from a blocking route?); exploration of this child stopped", idx, history[len(history)-2]))
+			res.Count("children_stopped_unresponsive", 1)
 		} else {
+			if l := readLog(); strings.Contains(l, "address already in use") {
+				// another process grabbed one of the ports between reserving and listening: harness artefact
+				res.Inconclusive(fmt.Sprintf("child %d: a listener could not bind (port taken by another process)", idx))
+				res.Eval(1)
+				return
+			}
 			sig, excerpt := deathSig(readLog(), exErr)
 			res.Violate(sig, fmt.Sprintf("the relay process died after it had started listening (child %d, after %q)", idx, history[len(history)-2]), witness(map[string]interface{}{"output": excerpt}))
 		}
